@@ -458,7 +458,7 @@ func (f *File) Readdirnames(n int) ([]string, error) {
 // ---- path based operations (shared by package functions and Root) ----
 
 func openAt(base *node, baseAbs, name, shown string, flag int, perm FileMode) (*File, error) {
-	parts, err := splitAbs(name)
+	parts, err := splitAt(baseAbs, name)
 	if err != nil {
 		return nil, perr("open", shown, err)
 	}
@@ -510,7 +510,7 @@ func openAt(base *node, baseAbs, name, shown string, flag int, perm FileMode) (*
 }
 
 func mkdirAt(base *node, baseAbs, name, shown string, perm FileMode) error {
-	parts, err := splitAbs(name)
+	parts, err := splitAt(baseAbs, name)
 	if err != nil {
 		return perr("mkdir", shown, err)
 	}
@@ -538,7 +538,7 @@ func mkdirAt(base *node, baseAbs, name, shown string, perm FileMode) error {
 
 // mkdirAllAt mirrors os.MkdirAll: one mkdir system call per missing component.
 func mkdirAllAt(base *node, baseAbs, name, shown string, perm FileMode) error {
-	parts, err := splitAbs(name)
+	parts, err := splitAt(baseAbs, name)
 	if err != nil {
 		return perr("mkdir", shown, err)
 	}
@@ -582,7 +582,7 @@ func shownJoin(shown, name, sub string) string {
 }
 
 func removeAt(base *node, baseAbs, name, shown string) error {
-	parts, err := splitAbs(name)
+	parts, err := splitAt(baseAbs, name)
 	if err != nil {
 		return perr("remove", shown, err)
 	}
@@ -612,7 +612,7 @@ func removeAt(base *node, baseAbs, name, shown string) error {
 }
 
 func removeAllAt(base *node, baseAbs, name, shown string) error {
-	parts, err := splitAbs(name)
+	parts, err := splitAt(baseAbs, name)
 	if err != nil {
 		return perr("RemoveAll", shown, err)
 	}
@@ -639,11 +639,11 @@ func removeAllAt(base *node, baseAbs, name, shown string) error {
 
 func renameAt(base *node, baseAbs, oldname, newname string) error {
 	fail := func(e error) error { return &LinkError{Op: "rename", Old: oldname, New: newname, Err: e} }
-	op, err := splitAbs(oldname)
+	op, err := splitAt(baseAbs, oldname)
 	if err != nil {
 		return fail(err)
 	}
-	np, nerr := splitAbs(newname)
+	np, nerr := splitAt(baseAbs, newname)
 	target := newname
 	if nerr == nil {
 		target = path.Join(np...)
@@ -697,7 +697,7 @@ func renameAt(base *node, baseAbs, oldname, newname string) error {
 }
 
 func statAt(base *node, baseAbs, name, shown string) (FileInfo, error) {
-	parts, err := splitAbs(name)
+	parts, err := splitAt(baseAbs, name)
 	if err != nil {
 		return nil, perr("stat", shown, err)
 	}
@@ -721,7 +721,7 @@ func statAt(base *node, baseAbs, name, shown string) (FileInfo, error) {
 }
 
 func chtimesAt(base *node, baseAbs, name, shown string, mtime time.Time) error {
-	parts, err := splitAbs(name)
+	parts, err := splitAt(baseAbs, name)
 	if err != nil {
 		return perr("chtimes", shown, err)
 	}
